@@ -105,6 +105,20 @@ def define(f):
     pass
 
 
+class _LazyArr(object):
+    """Native twin of the ghost lambda array mkarray(lambda i: e)."""
+
+    def __init__(self, f):
+        self.f = f
+
+    def __getitem__(self, i):
+        return self.f(i)
+
+
+def mkarray(f):
+    return _LazyArr(f)
+
+
 def is_fresh(x):
     return True
 
@@ -321,6 +335,9 @@ class Contract(object):
         self.ghost = {k: [_parse(x) for x in v] for k, v in g("ghost", {}).items()}
         self.str_domains = dict(g("str_domains", {}))
         self.split_on = list(g("split_on", []))
+        # arg_cases: [{param: type}, ...] - the body is verified once per case with these parameter types (e.g. a
+        # sequence parameter as a tuple of 2 and of 3 records); the requires clauses must restrict callers to the cases
+        self.arg_cases = list(g("arg_cases", []))
         self.split_loops = list(g("split_loops", []))
         self.split_body = bool(g("split_body", False))
         self.properties = g("properties", [])
